@@ -1276,46 +1276,64 @@ def check_C05(tier: str, seed: int) -> int:
         pre = vplib.impl_observe("relchk", paths, w.dir, 0, mem_kb=2 * 1024 * 1024)
         loaded = [i for i in range(len(paths)) if outcome(pre[i]) == 0]
         lp = [paths[i] for i in loaded]
-        res = {prof: vplib.impl_observe(prof, lp, w.dir, 31, max_frames=3, max_layers=6, timeout=2400, mem_kb=4 * 1024 * 1024, tag="walk")
-               for prof in ("dev", "relchk")}
-        # the model is compared on a seeded sample of the loaded inputs (all of them in the thorough tier)
-        msel = set(range(len(lp))) if tier != "quick" or len(lp) <= 1500 else set(rng.sample(range(len(lp)), 1500))
-        msel_l = sorted(msel)
-        mres = vplib.model_observe([lp[k] for k in msel_l], w.dir, 15, max_frames=3, max_layers=6, timeout=3000)
-        mb = {k: mres[j] for j, k in enumerate(msel_l)}
+        # the model is compared on a seeded sample of the loaded inputs (1500 in the quick tier, 40000 in the thorough tier)
+        cap = 1500 if tier == "quick" else 40000
+        msel = set(range(len(lp))) if len(lp) <= cap else set(rng.sample(range(len(lp)), cap))
+        if tier == "quick":
+            # 20000 nested groups cost the model (inductive integers, quadratic ancestor walks) more than two minutes: thorough tier only
+            msel = {k for k in msel if not stream[loaded[k]][1].startswith("special:deep")}
         corr_fail, direct_fail = [], []
         distinct = set()
-        for k, i in enumerate(loaded):
-            p, desc = stream[i]
-            distinct.add(hashlib.sha1(open(p, "rb").read()).hexdigest())
-            for prof in ("dev", "relchk"):
-                b = res[prof][k]
-                sp = vplib.section_panic(b)
-                if outcome(b) != 0 or sp is not None or not any(l and l[0] == 98 for l in b[0]):
-                    direct_fail.append({"what": "an accessor failed on a sprite that loaded", "profile": prof, "section": sp, "mutation": desc,
-                                        "comments": b[1][:3] if b else None, "_data": open(p, "rb").read()})
-            d = same_block(res["relchk"][k], mb[k]) if k in mb else None
-            if d:
-                corr_fail.append({"input": p, "mutation": desc, "diff": d, "_data": open(p, "rb").read()})
-            if res["dev"][k] is not None and res["relchk"][k] is not None and res["dev"][k][0] != res["relchk"][k][0]:
-                direct_fail.append({"what": "observation differs between dev and relchk builds", "mutation": desc, "_data": open(p, "rb").read()})
-            # documented dimensions
-            b = res["relchk"][k]
-            if outcome(b) == 0:
-                hdr = next((l for l in b[0] if l[0] == 2), None)
-                for l in b[0]:
-                    if l[0] in (22, 24, 27) and hdr:
-                        off = {22: 2, 24: 3, 27: 3}[l[0]]
-                        if l[off:off + 2] != hdr[1:3] or len(l) != off + 2 + hdr[1] * hdr[2]:
-                            direct_fail.append({"what": "image does not have the canvas dimensions", "line": l[:5], "_data": open(p, "rb").read()})
-                            break
+        nmodel = 0
+        BATCH = 4000          # observations are large (every image of every loadable input): compare batch by batch
+        for lo_ in range(0, len(lp), BATCH):
+            idx = list(range(lo_, min(len(lp), lo_ + BATCH)))
+            blp = [lp[k] for k in idx]
+            t_ = time.time()
+            res = {prof: vplib.impl_observe(prof, blp, w.dir, 31, max_frames=3, max_layers=6, timeout=2400, mem_kb=4 * 1024 * 1024, tag="walk%d" % lo_)
+                   for prof in ("dev", "relchk")}
+            log("C05 batch %d: walks of %d inputs in %.1fs" % (lo_, len(blp), time.time() - t_))
+            t_ = time.time()
+            msel_l = [j for j, k in enumerate(idx) if k in msel]
+            mres = vplib.model_observe([blp[j] for j in msel_l], w.dir, 15, max_frames=3, max_layers=6, timeout=3000, tag="model%d" % lo_)
+            log("C05 batch %d: model on %d inputs in %.1fs" % (lo_, len(msel_l), time.time() - t_))
+            mb = {j: mres[t] for t, j in enumerate(msel_l)}
+            nmodel += len(mb)
+            for j, k in enumerate(idx):
+                i = loaded[k]
+                p, desc = stream[i]
+                distinct.add(hashlib.sha1(open(p, "rb").read()).hexdigest())
+                for prof in ("dev", "relchk"):
+                    b = res[prof][j]
+                    sp = vplib.section_panic(b)
+                    if outcome(b) != 0 or sp is not None or not any(l and l[0] == 98 for l in b[0]):
+                        direct_fail.append({"what": "an accessor failed on a sprite that loaded", "profile": prof, "section": sp, "mutation": desc,
+                                            "comments": b[1][:3] if b else None, "_data": open(p, "rb").read()})
+                d = same_block(res["relchk"][j], mb[j]) if j in mb else None
+                if d:
+                    corr_fail.append({"input": p, "mutation": desc, "diff": d, "_data": open(p, "rb").read()})
+                if res["dev"][j] is not None and res["relchk"][j] is not None and res["dev"][j][0] != res["relchk"][j][0]:
+                    direct_fail.append({"what": "observation differs between dev and relchk builds", "mutation": desc, "_data": open(p, "rb").read()})
+                # documented dimensions
+                b = res["relchk"][j]
+                if outcome(b) == 0:
+                    hdr = next((l for l in b[0] if l[0] == 2), None)
+                    for l in b[0]:
+                        if l[0] in (22, 24, 27) and hdr:
+                            off = {22: 2, 24: 3, 27: 3}[l[0]]
+                            if l[off:off + 2] != hdr[1:3] or len(l) != off + 2 + hdr[1] * hdr[2]:
+                                direct_fail.append({"what": "image does not have the canvas dimensions", "line": l[:5], "_data": open(p, "rb").read()})
+                                break
+            del res, mres, mb
+            if len(direct_fail) > 50:
+                break
         proof_level_coverage(v, ob, {
             "evaluations": len(paths) + 2 * len(lp), "distinct_nontrivial": len(distinct),
             "rule": "the corruption stream of C04 plus well-formed sprites and the corpus; every input that loads gets the complete public API walk "
                     "(STRUCT, FRAMES, CELS, TILES, Debug formatting; all accessors, tile lookups on a coordinate lattice) in the dev and relchk builds; "
                     "no panic, documented image dimensions, dev = relchk, and full observation equality with the model; distinct = distinct loadable byte strings",
             "samples": [stream[i][1] for i in loaded[:3]] + [stream[i][1] for i in loaded[-2:]],
-            "loaded": len(lp), "inputs": len(paths), "model_compared": len(mb),
+            "loaded": len(lp), "inputs": len(paths), "model_compared": nmodel,
             "correspondence_disagreements": len(corr_fail), "direct_failures": len(direct_fail)})
         v.assumptions = ["canvas area is bounded by what the generated files declare; allocator exhaustion on a documented-size result is an environment limit"]
         return finish_with(v, ob, corr_fail, direct_fail)
@@ -2687,6 +2705,12 @@ def check_C16(tier: str, seed: int) -> int:
             mb[i] = r
         for i, (p, desc) in enumerate(items):
             br, bd = thr["release"][i], thr["dev"][i]
+            if 1 <= outcome(br) <= 4 and outcome(br) == outcome(bd):
+                # an input that is refused with an error value (e.g. the corpus file with an ICC profile): refused alike in both
+                # builds, and by the model; nothing else to observe
+                if i in with_model_set and not (1 <= outcome(mb[i]) <= 4):
+                    corr_fail.append({"input": p, "desc": desc, "diff": "implementation refuses the input, model outcome %d" % outcome(mb[i])})
+                continue
             for prof, b in (("release", br), ("dev", bd)):
                 if outcome(b) != 0 or any(l[0] == 99 for l in b[0]):
                     direct_fail.append({"what": "load or concurrent observation failed", "profile": prof, "input": desc, "comments": b[1][:3] if b else None,
